@@ -1,6 +1,18 @@
 // ---- transaction wire format + sighash midstate specs (written from the Bitcoin wire format and
 // ---- the replay-protected sighash specification, not from the code) ----
-pub uninterp spec fn varint(n: u64) -> Seq<u8>;   // canonical compact size; characterised in spec/varint.rs where needed
+// canonical compact-size integer (Bitcoin wire format)
+pub open spec fn varint(n: u64) -> Seq<u8> {
+    if n <= 252 { seq![n as u8] } else if n <= 0xffff { seq![0xfdu8] + le16(n as u16) }
+    else if n <= 0xffffffff { seq![0xfeu8] + le32(n as u32) } else { seq![0xffu8] + le64(n) }
+}
+// the accepting reader (non-canonical forms included): value and bytes consumed
+pub open spec fn parse_varint(s: Seq<u8>) -> Option<(u64, int)> {
+    if s.len() < 1 { None }
+    else if s[0] == 0xff { if s.len() < 9 { None } else { Some((un_le64(s.subrange(1, 9)), 9int)) } }
+    else if s[0] == 0xfe { if s.len() < 5 { None } else { Some((un_le32(s.subrange(1, 5)) as u64, 5int)) } }
+    else if s[0] == 0xfd { if s.len() < 3 { None } else { Some((un_le16(s.subrange(1, 3)) as u64, 3int)) } }
+    else { Some((s[0] as u64, 1int)) }
+}
 
 pub open spec fn outpoint(i: TxIn) -> Seq<u8> { i.prev_tx_id@.reverse() + le32(i.vout) }
 pub open spec fn ser_in(i: TxIn) -> Seq<u8> {
@@ -13,7 +25,7 @@ pub open spec fn cat_outpoints(s: Seq<TxIn>) -> Seq<u8> decreases s.len() { if s
 pub open spec fn cat_sequences(s: Seq<TxIn>) -> Seq<u8> decreases s.len() { if s.len() == 0 { seq![] } else { cat_sequences(s.drop_last()) + le32(s.last().sequence) } }
 pub open spec fn cat_ins(s: Seq<TxIn>) -> Seq<u8> decreases s.len() { if s.len() == 0 { seq![] } else { cat_ins(s.drop_last()) + ser_in(s.last()) } }
 pub open spec fn cat_outputs(s: Seq<TxOut>) -> Seq<u8> decreases s.len() { if s.len() == 0 { seq![] } else { cat_outputs(s.drop_last()) + ser_out(s.last()) } }
-pub open spec fn zeros32() -> Seq<u8> { Seq::new(32, |i: int| 0u8) }
+pub open spec fn zeros32() -> Seq<u8> { filled(0u8, 32) }
 
 pub open spec fn ser_tx(tx: Transaction) -> Seq<u8> {
     le32(tx.version) + varint(tx.inputs@.len() as u64) + cat_ins(tx.inputs@) + varint(tx.outputs@.len() as u64) + cat_outputs(tx.outputs@) + le32(tx.n_locktime)
@@ -25,3 +37,72 @@ pub open spec fn sequences_slot_ok(tx: Transaction) -> bool { match tx.hash_cach
 pub open spec fn outputs_slot_ok(tx: Transaction) -> bool { match tx.hash_cache.hash_outputs { Some(h) => h.0@ == spec_sha256d(cat_outputs(tx.outputs@)), None => true } }
 pub open spec fn cache_ok(tx: Transaction) -> bool { prevouts_slot_ok(tx) && sequences_slot_ok(tx) && outputs_slot_ok(tx) }
 pub open spec fn cache_empty(tx: Transaction) -> bool { tx.hash_cache.hash_inputs is None && tx.hash_cache.hash_sequence is None && tx.hash_cache.hash_outputs is None }
+
+// ---- independent positional decoder of the wire format (what "an independent decoder reads from the bytes") ----
+pub ghost struct InRaw { pub txid_wire: Seq<u8>, pub vout: u32, pub script: Seq<u8>, pub sequence: u32, pub used: int }
+pub ghost struct OutRaw { pub value: u64, pub script: Seq<u8>, pub used: int }
+pub ghost struct TxRaw { pub version: u32, pub ins: Seq<InRaw>, pub outs: Seq<OutRaw>, pub locktime: u32, pub used: int }
+
+pub open spec fn dec_in(s: Seq<u8>) -> Option<InRaw> {
+    if s.len() < 36 { None } else {
+        match parse_varint(s.skip(36)) {
+            None => None,
+            Some((n, k)) => if s.len() < 36 + k + n as int + 4 { None } else {
+                Some(InRaw { txid_wire: s.subrange(0, 32), vout: un_le32(s.subrange(32, 36)), script: s.subrange(36 + k, 36 + k + n as int),
+                             sequence: un_le32(s.subrange(36 + k + n as int, 36 + k + n as int + 4)), used: 36 + k + n as int + 4 })
+            },
+        }
+    }
+}
+pub open spec fn dec_out(s: Seq<u8>) -> Option<OutRaw> {
+    if s.len() < 8 { None } else {
+        match parse_varint(s.skip(8)) {
+            None => None,
+            Some((n, k)) => if s.len() < 8 + k + n as int { None } else {
+                Some(OutRaw { value: un_le64(s.subrange(0, 8)), script: s.subrange(8 + k, 8 + k + n as int), used: 8 + k + n as int })
+            },
+        }
+    }
+}
+pub open spec fn is_coinbase_outpoint(txid_wire: Seq<u8>, vout: u32) -> bool { txid_wire == zeros32() && vout == 0xffffffffu32 }
+// the parsed input reports exactly what the decoder reads
+pub open spec fn in_matches(t: TxIn, r: InRaw) -> bool {
+    t.prev_tx_id@.reverse() == r.txid_wire && t.vout == r.vout && t.sequence == r.sequence && ser_script(t.unlocking_script) == r.script
+    && t.satoshis is None && t.locking_script is None
+    && (!is_coinbase_outpoint(r.txid_wire, r.vout) ==> tok(r.script) == Some(flats(t.unlocking_script.0@)) && no_bare_ifs(t.unlocking_script.0@))
+}
+pub open spec fn out_matches(t: TxOut, r: OutRaw) -> bool {
+    t.value == r.value && ser_script(t.script_pub_key) == r.script && tok(r.script) == Some(flats(t.script_pub_key.0@)) && no_bare_ifs(t.script_pub_key.0@)
+}
+pub open spec fn dec_ins(s: Seq<u8>, n: nat) -> Option<(Seq<InRaw>, int)> decreases n {
+    if n == 0 { Some((Seq::<InRaw>::empty(), 0int)) } else {
+        match dec_ins(s, (n - 1) as nat) { None => None, Some((v, used)) =>
+            if used > s.len() { None } else { match dec_in(s.skip(used)) { None => None, Some(r) => Some((v.push(r), used + r.used)) } } }
+    }
+}
+pub open spec fn dec_outs(s: Seq<u8>, n: nat) -> Option<(Seq<OutRaw>, int)> decreases n {
+    if n == 0 { Some((Seq::<OutRaw>::empty(), 0int)) } else {
+        match dec_outs(s, (n - 1) as nat) { None => None, Some((v, used)) =>
+            if used > s.len() { None } else { match dec_out(s.skip(used)) { None => None, Some(r) => Some((v.push(r), used + r.used)) } } }
+    }
+}
+pub open spec fn dec_tx(s: Seq<u8>) -> Option<TxRaw> {
+    if s.len() < 4 { None } else {
+        match parse_varint(s.skip(4)) { None => None, Some((nin, k1)) =>
+            match dec_ins(s.skip(4 + k1), nin as nat) { None => None, Some((ins, u1)) =>
+                if 4 + k1 + u1 > s.len() { None } else {
+                match parse_varint(s.skip(4 + k1 + u1)) { None => None, Some((nout, k2)) =>
+                    match dec_outs(s.skip(4 + k1 + u1 + k2), nout as nat) { None => None, Some((outs, u2)) =>
+                        if s.len() < 4 + k1 + u1 + k2 + u2 + 4 { None } else {
+                            Some(TxRaw { version: un_le32(s.subrange(0, 4)), ins: ins, outs: outs,
+                                         locktime: un_le32(s.subrange(4 + k1 + u1 + k2 + u2, 4 + k1 + u1 + k2 + u2 + 4)), used: 4 + k1 + u1 + k2 + u2 + 4 })
+                        } } } } } }
+    }
+}
+pub open spec fn ins_match(t: Seq<TxIn>, r: Seq<InRaw>) -> bool { t.len() == r.len() && forall|i: int| 0 <= i < t.len() ==> in_matches(#[trigger] t[i], r[i]) }
+pub open spec fn outs_match(t: Seq<TxOut>, r: Seq<OutRaw>) -> bool { t.len() == r.len() && forall|i: int| 0 <= i < t.len() ==> out_matches(#[trigger] t[i], r[i]) }
+pub open spec fn tx_matches(t: Transaction, r: TxRaw) -> bool {
+    t.version == r.version && t.n_locktime == r.locktime && ins_match(t.inputs@, r.ins) && outs_match(t.outputs@, r.outs)
+}
+pub open spec fn sum_values(s: Seq<TxOut>) -> int decreases s.len() { if s.len() == 0 { 0 } else { sum_values(s.drop_last()) + s.last().value as int } }
+pub open spec fn tx_is_coinbase(t: Transaction) -> bool { t.inputs@.len() == 1 && t.inputs@[0].prev_tx_id@ == zeros32() && t.inputs@[0].vout == 0xffffffffu32 }
